@@ -10,6 +10,7 @@ import Fx.Index
 import Fx.Lemmas.Generic
 import Fx.Lemmas.PegTerm
 import Fx.Lemmas.PegFuel
+import Fx.Lemmas.WalkTotal
 namespace Fx.C14
 open Fx
 
@@ -144,5 +145,25 @@ theorem C14_parse_is_a_function (txt : List Char) :
   obtain ⟨F, hF⟩ := C14_parser_terminates txt.length
   have h0 := hF txt (Nat.le_refl _) F (Nat.le_refl _)
   exact ⟨_, F, h0, fun f hf => Peg.evalRule_fuel_mono Grammar.xdr false "item" ⟨0, txt⟩ F f hf h0⟩
+
+/-- **C14 (exactly where the property fails).**  For EVERY text, `Ast::new` returns `Ok`, returns `Err`, or panics at one of
+    five sites: K6.a `UnionCase::new` ("invalid number of union field tokens"), K6.b / K6.f `StructField::new` ("invalid
+    number of struct field tokens" / "unexpected struct field option layout"), K6.c `VariantValue::from` (the hex `unwrap`),
+    K6.d `ConstantIndex::new` ("duplicate case keys").  The token trees the parser produces conform to the grammar
+    (`Peg.shape`), and on such trees the other seventeen panic, unwrap, index and `unreachable!` sites of `src/ast` are
+    unreachable (`Fx.Lemmas.WalkTotal`, rule by rule over the grammar regenerated from `src/xdr.pest`).  So the list of known
+    findings the check matches against is complete for the front end: a panic anywhere else is a new defect (or a model error,
+    which the T3 tie reports). -/
+theorem C14_only_known_panic_sites (txt : String) (f m : String) (h : Ast.new txt = .panicAt f m) : (f, m) ∈ knownSites :=
+  front_end_known_panics txt f m h
+
+/-- the same, as the three-way outcome -/
+theorem C14_ok_err_or_known_panic (txt : String) :
+    (∃ a, Ast.new txt = .ok a) ∨ Ast.new txt = .err ∨ (∃ f m, Ast.new txt = .panicAt f m ∧ (f, m) ∈ knownSites) ∨ Ast.new txt = .outOfFuel := by
+  cases h : Ast.new txt with
+  | ok a => exact Or.inl ⟨a, rfl⟩
+  | err => exact Or.inr (Or.inl rfl)
+  | panicAt f m => exact Or.inr (Or.inr (Or.inl ⟨f, m, rfl, front_end_known_panics txt f m h⟩))
+  | outOfFuel => exact Or.inr (Or.inr (Or.inr rfl))
 
 end Fx.C14
